@@ -1,7 +1,7 @@
 (* C17 - Node-label operations agree with their bit-string meaning.
    Property theorems only; every proof is [exact <lemma>]. *)
 From Coq Require Import List Bool NArith.
-From Akd Require Import ElemSet ElemSetFacts InsertRefine BitsLabel.
+From Akd Require Import ElemSet ElemSetFacts ContainsPrefix InsertRefine BitsLabel.
 From Akd Require Import Bits NodeLabel NodeLabelFacts.
 Import ListNotations.
 Open Scope N_scope.
@@ -63,6 +63,44 @@ Theorem C17_set_lcp : forall empty s,
   bits_of (eset_lcp empty s) = Spec.lcp_all (ebits (eset_list s)) /\ WF (eset_lcp empty s) /\ canonical (eset_lcp empty s) = true.
 Proof. exact eset_lcp_spec. Qed.
 Print Assumptions C17_set_lcp.
+
+(* contains_prefix: the unsorted form IS "some element's label extends the prefix"; the search form
+   answers yes only in the three listed ways; for prefixes not longer than the elements (the only
+   ones the preloading asks about) a yes of the search form is a yes of the unsorted form.  The
+   Example shows the third way is real (a seeded change cannot hide behind it: it needs a prefix
+   longer than an element with the same value bytes). *)
+Theorem C17_contains_prefix_unsorted : forall p l,
+  WF p -> (forall x, In x l -> WF (e_label x)) ->
+  eset_contains_prefix (Unsorted l) p = existsb (extends p) l.
+Proof. exact contains_prefix_unsorted. Qed.
+Print Assumptions C17_contains_prefix_unsorted.
+
+Theorem C17_contains_prefix_search_sound : forall p l,
+  WF p -> (forall x, In x l -> WF (e_label x)) ->
+  eset_contains_prefix (BinarySearchable l) p = true ->
+  (llen p = 0 /\ l <> []) \/ existsb (extends p) l = true \/
+  (exists x, In x l /\ lval (e_label x) = lval p /\ llen (e_label x) < llen p).
+Proof. exact contains_prefix_sorted_sound. Qed.
+Print Assumptions C17_contains_prefix_search_sound.
+
+Theorem C17_contains_prefix_search_sound_leaves : forall p l,
+  WF p -> (forall x, In x l -> WF (e_label x)) ->
+  (forall x, In x l -> llen p <= llen (e_label x)) -> llen p <> 0 ->
+  eset_contains_prefix (BinarySearchable l) p = true ->
+  eset_contains_prefix (Unsorted l) p = true.
+Proof. exact contains_prefix_sorted_sound_leaves. Qed.
+Print Assumptions C17_contains_prefix_search_sound_leaves.
+
+Theorem C17_search_hit_is_an_element : forall (A : Type) (f : A -> comparison) d l,
+  fst (binary_search_by f d l) = true -> exists x, In x l /\ f x = Eq.
+Proof. exact @binary_search_found_sound. Qed.
+Print Assumptions C17_search_hit_is_an_element.
+
+Example C17_contains_prefix_forms_differ_on_longer_prefix :
+  let x := El (NL (zeros 32) 8) [] in let p := NL (zeros 32) 9 in
+  eset_contains_prefix (BinarySearchable [x]) p = true /\
+  eset_contains_prefix (Unsorted [x]) p = false.
+Proof. exact contains_prefix_forms_differ_on_longer_prefix. Qed.
 
 Theorem C17_bits_roundtrip : (forall bs, (length bs <= 256)%nat -> bits_of (nl_of_bits bs) = bs) /\
   (forall a, WF a -> canonical a = true -> nl_of_bits (bits_of a) = a).
